@@ -351,7 +351,7 @@ impl Check for C02Check {
     fn rule(&self) -> String {
         format!(
             "Operator sequences over all {} operators of the independent table (binary incl. implicit space list, comma list, pair, conditionals, apply forms, separators; prefix; suffix; backtick prefix/suffix/infix identifiers): \
-             every ordered pair x 4 layout/atom variants and every ordered triple x 2 variants exhaustively (thorough adds every 4-sequence of level representatives), operands inserted where the fixities need them; random deeper expressions with groups and nested expressions from a proptest tape. \
+             every ordered pair x 4 layout/atom variants and every ordered triple x 2 variants exhaustively (thorough adds every 4-sequence of level representatives), operands inserted where the fixities need them; level-representative triples with one operand wrapped in ( ) / { } or replaced by an empty bracket pair (which is an operand all the same); random deeper expressions with groups and nested expressions from a proptest tape. \
              Oracle: (i) the S-expression of parse(lex(text)) equals the tree of a reference precedence-climbing parser driven only by the table; (ii) printing the obtained tree fully parenthesised and re-parsing gives the same tree modulo Group nodes. \
              Sequences whose fixities cannot follow each other, layouts in which the lexer merges tokens, and inputs the parser rejects are counted, not judged. Non-trivial = accepted sequence with >= 2 operators; distinct = distinct (operator sequence, variant).",
             OPS.len()
@@ -368,8 +368,8 @@ impl Check for C02Check {
         let mut v = vec![Phase::exhaustive("pairs", n * n * 4).with_chunk(512), Phase::exhaustive("triples", n * n * n * 2).with_chunk(4096)];
         {
             let r = optable::level_representatives().len() as u64;
-            // level-representative triples, one operand (position 0..3) wrapped in ( ) or { }, 2 layouts
-            v.push(Phase::exhaustive("triples-with-grouped-operand", r * r * r * 4 * 2 * 2).with_chunk(4096));
+            // level-representative triples, one operand (position 0..3) wrapped in ( ) or { } or replaced by an empty ( ) / { }, 2 layouts
+            v.push(Phase::exhaustive("triples-with-grouped-operand", r * r * r * 4 * 2 * 2 * 2).with_chunk(4096));
         }
         if tier == Tier::Thorough {
             let r = optable::level_representatives().len() as u64;
@@ -462,16 +462,18 @@ impl Check for C02Check {
                 let variant = i % 2;
                 let open = if (i / 2) % 2 == 0 { '(' } else { '{' };
                 let pos = ((i / 4) % 4) as usize;
-                let mut r = i / 16;
+                // the bracket pair holds one operand, or nothing (an empty pair is an operand all the same)
+                let empty = (i / 16) % 2 == 1;
+                let mut r = i / 32;
                 let mut ops = vec![];
                 for _ in 0..3 {
                     ops.push(reps[(r % k) as usize]);
                     r /= k;
                 }
                 ops.reverse();
-                ctx.class("triple-grouped");
+                ctx.class(if empty { "triple-with-empty-bracket-pair" } else { "triple-grouped" });
                 let (layout, atoms) = if variant == 0 { (Layout::Spaced, NUM_ATOMS) } else { (Layout::Tight, ID_ATOMS) };
-                let toks = match compose_grouped(&ops, atoms, pos, open) {
+                let toks = match compose_grouped(&ops, atoms, pos, open, empty) {
                     Some(t) if t.iter().any(|x| matches!(x, Tok::Open(_))) => t,
                     _ => {
                         ctx.class("invalid-fixity-sequence");
